@@ -352,8 +352,6 @@ Qed.
 
 (* ------------------------------------------------------------------ well-formed key listing *)
 
-Definition WF (s : state) : Prop := NoDup (commits s).
-
 Lemma apply_WF w s : WF s -> WF (apply w s).
 Proof.
   unfold WF. destruct s, w; cbn; auto.
